@@ -56,7 +56,7 @@ import json
 import os
 import subprocess
 
-from lib import Broken, build_harness, write_ndjson, read_ndjson, tlc, parse_tuple_fields, replay_path, log
+from lib import library_races, Broken, build_harness, write_ndjson, read_ndjson, tlc, parse_tuple_fields, replay_path, log
 
 STORE_GEN_CFG = "SPECIFICATION Spec\nCONSTANTS\n  Ids = {\"a\",\"b\"}\n  Vals = {\"v1\",\"v2\"}\n  RemoveAbsentErr = FALSE\n  StoreOnce = FALSE\n  Depth = 14\nCHECK_DEADLOCK FALSE\n"
 BACKENDS = {"inmem": dict(RemoveAbsentErr="FALSE", StoreOnce="FALSE"),
@@ -103,7 +103,13 @@ def store_lin(scr, insts, tag, seed):
                        text=True, env=env, timeout=1800)
     if p.returncode != 0:
         raise Broken("store driver failed: %s" % p.stdout[-2000:])
-    races = [open(f).read()[:2000] for f in glob.glob(racelog + "*") if "DATA RACE" in open(f).read()]
+    races, own = [], []
+    for f in glob.glob(racelog + "*"):
+        a, b = library_races(open(f).read())
+        races += a
+        own += b
+    if own:
+        print("NOTE %d race report(s) between two accesses of the harness' own bookkeeping ignored" % len(own))
     lines = read_ndjson(outp)
     cfg = ("SPECIFICATION Spec\nCONSTANTS\n  Ids = {\"a\",\"b\"}\n  Vals = {\"v1\",\"v2\"}\n  RemoveAbsentErr = FALSE\n  StoreOnce = FALSE\n"
            "  TraceFile = \"trace.ndjson\"\n  Props = {\"C19\"}\n  TMode = \"lin\"\n  Clients = {\"c1\",\"c2\",\"c3\"}\nCONSTRAINT HighWater\nPOSTCONDITION Report\nCHECK_DEADLOCK FALSE\n")
@@ -435,9 +441,14 @@ def iso_post(prop, tier, seed, scr, coverage, known):
     p = subprocess.run([exe, "iso", "-in", inp, "-out", outp, "-seed", str(seed), "-par", "2"], stdout=subprocess.PIPE, stderr=subprocess.STDOUT, text=True, env=env, timeout=1800)
     if p.returncode != 0:
         raise Broken("iso race run failed: %s" % p.stdout[-2000:])
-    races = [open(f).read()[:3000] for f in glob.glob(racelog + "*") if "DATA RACE" in open(f).read()]
-    # only races that involve the library (not the harness' own bookkeeping) count
-    races = [r for r in races if "nodeenrollment/protocol" in r or "nodeenrollment/registration" in r or "nodeenrollment/tls" in r]
+    # only races in which the library makes at least one of the two accesses count (not the harness' own bookkeeping)
+    races, own = [], []
+    for f in glob.glob(racelog + "*"):
+        a, b = library_races(open(f).read())
+        races += a
+        own += b
+    if own:
+        print("NOTE %d race report(s) between two accesses of the harness' own bookkeeping ignored" % len(own))
     coverage["race_detector_mixes"] = len(insts)
     coverage["race_reports"] = len(races)
     if races:
